@@ -1,6 +1,7 @@
 package priorityqueue
 
 import (
+	v "github.com/emirpasic/gods/v2/zzvsup"
 	"github.com/emirpasic/gods/v2/containers"
 	"github.com/emirpasic/gods/v2/trees/binaryheap"
 	vl "github.com/emirpasic/gods/v2/zzvlib"
@@ -26,4 +27,10 @@ func VHIter() {
 	q, _ := VGQueue()
 	seq := q.Values()
 	containers.VIterStep(func() containers.IteratorWithIndex[int] { return q.Iterator() }, seq, q)
+}
+
+// VHSnap: returned slices are snapshots, argument slices are copied, GetSortedValues leaves the container alone (C16).
+func VHSnap() {
+	c, _ := VGQueue()
+	containers.VSnapStep(containers.VSnap{C: c, Mutate: []func(){c.Clear, func() { c.Enqueue(v.Int("m")) }, func() { c.Dequeue() }}})
 }
